@@ -718,6 +718,7 @@ func (fsm *fsm) stateChange(nextState bgp.FSMState, reason *fsmStateReason) {
 			conf.AfiSafis[i].LongLivedGracefulRestart.State.Enabled = false
 			conf.AfiSafis[i].LongLivedGracefulRestart.State.Received = false
 			conf.AfiSafis[i].LongLivedGracefulRestart.State.PeerRestartTime = 0
+			conf.AfiSafis[i].LongLivedGracefulRestart.State.PeerRestartTimerExpired = false
 		}
 
 		gr, ok := fsm.capMap[bgp.BGP_CAP_GRACEFUL_RESTART]
